@@ -143,7 +143,16 @@ func runC15(c *Ctx) {
 	inspectBody(setF.Decl.Body, func(x ast.Node) bool {
 		if call, ok := x.(*ast.CallExpr); ok {
 			if id, ok := call.Fun.(*ast.Ident); ok && id.Name == "delete" && len(call.Args) == 2 {
-				if victim != nil && strings.HasPrefix(exprKey(call.Args[1]), victim.Name+".Value.(*cacheEntry).key") {
+				k := exprKey(call.Args[1])
+				// the entry may have been read into a local first: `e := victim.Value.(*cacheEntry)` … `delete(m, e.key)`
+				if sel, ok := ast.Unparen(call.Args[1]).(*ast.SelectorExpr); ok {
+					if id, ok := ast.Unparen(sel.X).(*ast.Ident); ok {
+						if rhs, _, ok := setF.definedBy(setF.Decl.Body, setF.ObjOf(id)); ok {
+							k = exprKey(rhs) + "." + sel.Sel.Name
+						}
+					}
+				}
+				if victim != nil && strings.HasPrefix(k, victim.Name+".Value.(*cacheEntry).key") {
 					dl, _ := g.Locate(call)
 					if g.Dominates(rl, dl) || g.Dominates(dl, rl) {
 						delOK = true
@@ -167,6 +176,10 @@ func runC15(c *Ctx) {
 				kid, ok1 := ast.Unparen(ix.Index).(*ast.Ident)
 				rid, ok2 := ast.Unparen(as.Rhs[0]).(*ast.Ident)
 				if ok1 && ok2 && setF.ObjOf(kid) == keyParam && pobj != nil && setF.ObjOf(rid) == pobj {
+					regOK = true
+				}
+				// m[key] = list.PushFront(...) without a temporary
+				if ok1 && setF.ObjOf(kid) == keyParam && ast.Unparen(as.Rhs[0]) == ast.Expr(push) {
 					regOK = true
 				}
 			}
